@@ -99,7 +99,7 @@ def discharge(obligations, procs=None, z3_timeout_ms=None, cvc5_timeout_ms=None,
     procs = procs or min(16, os.cpu_count() or 4)
     zt = z3_timeout_ms or Z3_TIMEOUT_MS
     ct = cvc5_timeout_ms or CVC5_TIMEOUT_MS
-    stage1, full_text = [], {}
+    stage1, full_text, relaxed_text = [], {}, {}
     has_q = {}
     for i, ob in enumerate(obligations):
         g = z3.simplify(ob.goal)
@@ -121,7 +121,8 @@ def discharge(obligations, procs=None, z3_timeout_ms=None, cvc5_timeout_ms=None,
                     s.add(c)
             s.add(z3.Not(ob.goal))
             ob.false_goal = z3.is_false(g)
-            stage1.append((i, s.to_smt2(), min(zt, 4000) if ob.false_goal else zt, True))
+            relaxed_text[i] = s.to_smt2()
+            stage1.append((i, relaxed_text[i], min(zt, 4000) if ob.false_goal else zt, True))
     ctx = mp.get_context("fork")
 
     def run(jobs, worker):
@@ -139,8 +140,6 @@ def discharge(obligations, procs=None, z3_timeout_ms=None, cvc5_timeout_ms=None,
             ob.result, ob.backend, ob.model = res, "z3", model
         elif res == "unsat":
             ob.result, ob.backend = "unsat", "z3(quantifier-free part)"
-        elif getattr(ob, "false_goal", False) and res != "sat":
-            ob.result, ob.backend = "unknown", "z3(quantifier-free part)"     # path neither refuted nor witnessed
         else:
             ob.relaxed = (res, model)
             full_text[idx] = ob.smt2()
@@ -164,6 +163,28 @@ def discharge(obligations, procs=None, z3_timeout_ms=None, cvc5_timeout_ms=None,
                 continue
             if res in ("sat", "unsat"):
                 ob.result, ob.backend = res, "cvc5"
+    # last stage: whatever is still open gets one more attempt with a generous budget and little parallelism, so that a verdict does not
+    # depend on how busy the machine was (budgets above are sized for an idle 16-core box)
+    # (an infeasibility obligation - goal False - is retried on its quantifier-free part: unsat there is a proof)
+    retry = [(i, relaxed_text[i] if getattr(ob, "false_goal", False) and i in relaxed_text else full_text[i], 6 * zt, True)
+             for i, ob in enumerate(obligations)
+             if (i in full_text or i in relaxed_text) and ob.kind not in ("canary", "vacuity") and ob.result in ("unknown", "error")]
+    if retry and not os.environ.get("PYVC_NO_RETRY"):
+        saved_procs = procs
+        procs = 4
+        for idx, res, t, model, reason in run(retry, _z3_worker):
+            ob = obligations[idx]
+            ob.time += t
+            if res == "unsat" or (res == "sat" and idx in full_text and not getattr(ob, "false_goal", False)):
+                ob.result, ob.backend, ob.model, ob.reason = res, "z3(retry)", model, reason
+        still = [(i, full_text[i], 3 * ct) for i, _, _, _ in retry if obligations[i].result in ("unknown", "error") and i in full_text]
+        if os.path.exists(CVC5):
+            for idx, res, t in run(still, _cvc5_worker):
+                ob = obligations[idx]
+                ob.time += t
+                if res in ("sat", "unsat"):
+                    ob.result, ob.backend = res, "cvc5(retry)"
+        procs = saved_procs
     for ob in obligations:
         rel = getattr(ob, "relaxed", None)
         if ob.result in ("unknown", "error") and rel and rel[0] == "sat":
